@@ -112,6 +112,11 @@ var Texts = map[string]string{
   container c1 { uses g; }
   list c2 { key x; uses g; }
 }`,
+	// two revisions of a submodule with different identities; another module derives from an identity only the older one has
+	"au": `module ida { namespace "urn:ida"; prefix ida; include ids; identity top; }
+module idu { namespace "urn:idu"; prefix idu; import ida { prefix a; } identity d { base a:x; } identity e { base a:top; } leaf r { type identityref { base a:top; } } }`,
+	"sr1": `submodule ids { belongs-to ida { prefix ida; } revision 2020-01-01; identity x { base ida:top; } }`,
+	"sr2": `submodule ids { belongs-to ida { prefix ida; } revision 2021-01-01; identity z { base ida:top; } }`,
 	// a submodule of fm1 that fm2 includes as well (it does not belong to fm2: an error, in every run and order)
 	"fm1": `module fm1 { namespace "urn:fm1"; prefix fm1; include fs; leaf own1 { type string; } }`,
 	"fm2": `module fm2 { namespace "urn:fm2"; prefix fm2; include fs; leaf own2 { type string; } }`,
@@ -412,6 +417,8 @@ func exec(kind byte, body []byte) *core.Verdict {
 // given texts: what the property promises must hold however the set was arrived at.
 var first = map[string]bool{"i1": true, "t2": true, "t2b": true, "t2c": true, "a3": true, "m4": true, "s4": true, "bb-r1": true, "bb-r2": true, "ib": true, "e5": true}
 
+var third = map[string]bool{"idm": true, "idb": true, "fm1": true, "fm2": true, "fs": true, "au": true, "sr1": true, "sr2": true}
+
 func Histories(r *core.Run, prop string, texts ...string) {
 	core.CaseSuffix = `,"prop":"` + prop + `"}`
 	keep := func(i int64, body string) bool {
@@ -430,6 +437,9 @@ func Histories(r *core.Run, prop string, texts ...string) {
 		if first[t] {
 			cfg = "MCSession_quick.cfg"
 		}
+		if third[t] {
+			cfg = "MCSession_quick3.cfg"
+		}
 	}
 	r.DirectionA("session", core.TLCOpts{Module: "MCSession", Cfg: cfg, Workers: 12, HeapGB: 16, Timeout: 0}, keep)
 	core.CaseSuffix = ""
@@ -445,4 +455,5 @@ func check(r *core.Run) {
 	r.Assumptions = []string{"Batch is computed by the real library on a fresh set (the statement defines the property that way); the specification decides which texts count"}
 	r.DirectionA("session", core.TLCOpts{Module: "MCSession", Cfg: cfg, Workers: 12, HeapGB: 16, Timeout: 0}, nil)
 	r.DirectionA("session", core.TLCOpts{Module: "MCSession", Cfg: strings.Replace(cfg, ".cfg", "2.cfg", 1), Workers: 12, HeapGB: 16, Timeout: 0}, nil)
+	r.DirectionA("session", core.TLCOpts{Module: "MCSession", Cfg: strings.Replace(cfg, ".cfg", "3.cfg", 1), Workers: 12, HeapGB: 16, Timeout: 0}, nil)
 }
